@@ -1,5 +1,5 @@
 """C12 — sub-circuits, loops and classical control equal their unrolled form (DESIGN 5/C12)."""
-import itertools
+import itertools, time
 import numpy as np
 from .. import env, coq, runner, tables
 
@@ -625,7 +625,7 @@ def struct_stream(ctx, cirq, V, n, unroll_n=60):
     gen = Gen(rng)
     rows = []
     tries = 0
-    while len(rows) < n and tries < 20 * n:
+    while len(rows) < n and tries < 20 * n and not over_time(ctx):
         tries += 1
         depth = rng.choice([0, 1, 1, 2, 2, 3])
         rec = gen.sub(depth, 4, rng.random() < 0.2, NAMES, exact_depth=True)
@@ -931,12 +931,29 @@ def _variants(o):
                 yield x
 
 
+SHRINK = dict(spent=0.0, limit=45.0)
+
+
+def seen(ctx, sig):
+    """Is a violation with this signature already recorded (or a known finding)?  Then there is nothing to minimise."""
+    return any(k['signature'] == sig for k in ctx.known) or any(v['signature'] == sig for v in ctx.violations)
+
+
+def over_time(ctx):
+    lim = 150 if ctx.tier == 'quick' else 1500
+    if time.time() - SHRINK.get('t0', ctx.t0) > lim:     # measured from the start of the streams (builds may wait for the lock)
+        ctx.streams['truncated:time-limit'] += 1
+        return True
+    return False
+
+
 def shrink(rec, fails, budget=400):
     """Greedy minimisation: keep applying the first simplification under which `fails` still holds."""
     cur = rec
     n = 0
     progress = True
-    while progress and n < budget:
+    t0 = time.time()
+    while progress and n < budget and SHRINK['spent'] + (time.time() - t0) < SHRINK['limit']:
         progress = False
         for cand in _variants(cur):
             n += 1
@@ -949,6 +966,7 @@ def shrink(rec, fails, budget=400):
                     break
             except Exception:
                 pass
+    SHRINK['spent'] += time.time() - t0
     return cur
 
 
@@ -1009,7 +1027,7 @@ def spec_struct(ctx, cirq, V, op, D, obs, do_unroll=True):
         for name in ('unroll_circuit_op', 'unroll_circuit_op_greedy_earliest', 'unroll_circuit_op_greedy_frontier'):
             kind = unroll_defect(cirq, V, name, D)
             if kind:
-                small = shrink(D, lambda x: unroll_defect(cirq, V, name, x) == kind, budget=150)
+                small = D if seen(ctx, f'{name}:{kind}') else shrink(D, lambda x: unroll_defect(cirq, V, name, x) == kind, budget=150)
                 ctx.violation(f'{name}:{kind}', f'{name}(deep=True) {kind} relative to mapped_circuit(deep=True); minimised input: '
                               f'{V.sub(small)!r}'[:1800], dict(kind='unroll', rec=small, fn=name, defect=kind))
     ctx.streams['spec:wrapped-vs-unrolled'] += 1
@@ -1076,7 +1094,7 @@ def unitary_stream(ctx, cirq, V, n):
     rng = ctx.rng
     gen = Gen(rng, sim=True, param_leaves=True)
     done = tries = 0
-    while done < n and tries < 20 * n:
+    while done < n and tries < 20 * n and not over_time(ctx):
         tries += 1
         one = rng.random() < 0.4            # single-qubit bodies select CircuitOperation._unitary_'s fast path
         rec = gen.sub(rng.choice([0, 0, 1, 1, 2]), 1 if one else 3, True, [], exact_depth=False)
@@ -1113,7 +1131,8 @@ def unitary_defect(cirq, V, D):
 def check_unitary(ctx, cirq, V, op, D):
     kind = unitary_defect(cirq, V, D)
     if kind:
-        small = shrink(D, lambda x: unitary_defect(cirq, V, x) == kind, budget=200)
+        tag0 = '1q-fast-path' if len(op.qubits) == 1 else 'general'
+        small = D if seen(ctx, f'F4:unitary:{tag0}:{kind}') else shrink(D, lambda x: unitary_defect(cirq, V, x) == kind, budget=200)
         sop = V.sub(small)
         tag = '1q-fast-path' if len(sop.qubits) == 1 else 'general'
         ctx.violation(f'F4:unitary:{tag}:{kind}', f'cirq.unitary / has_unitary of the wrapped operation vs its unrolled circuit: {kind}; '
@@ -1170,7 +1189,7 @@ def sim_stream(ctx, cirq, V, n):
     rng = ctx.rng
     gen = Gen(rng, sim=True, classical=True)
     done = tries = 0
-    while done < n and tries < 20 * n:
+    while done < n and tries < 20 * n and not over_time(ctx):
         tries += 1
         prep, names, rec = sim_case(rng, gen)
         if rec is None or attempt(lambda: V.sub(rec))[0] != 'ok':
@@ -1190,7 +1209,7 @@ def sim_stream(ctx, cirq, V, n):
         ctx.count('sim:records' if ok else 'sim:both-raise', (prep, D, ctl), ok and len(a[1]) > 1,
                   sample=dict(op=repr(op)[:500], control=ctl, records=a[1] if ok else a[1:]))
         if kind:
-            small = shrink(D, lambda x: sim_defect(cirq, V, prep, x, ctl)[0] == kind, budget=200)
+            small = D if seen(ctx, f'sim:{kind}') else shrink(D, lambda x: sim_defect(cirq, V, prep, x, ctl)[0] == kind, budget=200)
             ctx.violation(f'sim:{kind}', f'{kind}: {a[1:]} vs {b[1:]}; minimised operation: {V.sub(small)!r}'[:1800] +
                           f' after prep {prep} control {ctl}', dict(kind='sim', prep=prep, rec=small, ctl=ctl, defect=kind))
 
@@ -1271,7 +1290,7 @@ def until_stream(ctx, cirq, V, n):
     rng = ctx.rng
     gen = Gen(rng, sim=True, classical=True)
     done = tries = 0
-    while done < n and tries < 40 * n:
+    while done < n and tries < 40 * n and not over_time(ctx):
         tries += 1
         prep, names, rec = sim_case(rng, gen)
         if rec is None:
@@ -1296,7 +1315,7 @@ def until_stream(ctx, cirq, V, n):
             if payload(D['until']) not in ((-1,), (-1, 0, False, None)) and D['until'][0] != 'sym' and confirm_f2(ctx, cirq, V):
                 ctx.streams['explained:F2'] += 1
                 continue
-            small = shrink(D, lambda x: x['until'] is not None and until_defect(cirq, V, prep, x) == kind, budget=150)
+            small = D if seen(ctx, f'sim:{kind}') else shrink(D, lambda x: x['until'] is not None and until_defect(cirq, V, prep, x) == kind, budget=60)
             ctx.violation(f'sim:{kind}', f'repeat_until loop: {kind}; minimised operation {V.sub(small)!r}'[:1800] + f' after prep {prep}',
                           dict(kind='until', prep=prep, rec=small, defect=kind))
 
@@ -1315,6 +1334,7 @@ def run(ctx):
         ctx.mark_broken('table:CondTables', err['CondTables'])
     ctx.set_obligations(coq.compile_props('C12'))
     quick = ctx.tier == 'quick'
+    SHRINK.update(t0=time.time(), spent=0.0)
     key_stream(ctx, cirq, V, 300 if quick else 3000)
     struct_stream(ctx, cirq, V, 240 if quick else 2400)
     unitary_stream(ctx, cirq, V, 100 if quick else 1500)
